@@ -4,7 +4,9 @@ import (
 	"bytes"
 	"encoding/json"
 	"fmt"
+	"io"
 	"runtime/debug"
+	"sort"
 	"strings"
 
 	"github.com/ozanh/ugo"
@@ -115,6 +117,70 @@ func (m c04) writerFaults(c *core.Ctx, p *Program, bc *ugo.Bytecode) {
 			}
 		}
 	}
+}
+
+// c04structure renders everything a decoded Bytecode holds (maps in canonical order), for comparing two decodes.
+func c04structure(bc *ugo.Bytecode) string {
+	var sb strings.Builder
+	fn := func(f *ugo.CompiledFunction) {
+		if f == nil {
+			sb.WriteString("nil-fn|")
+			return
+		}
+		keys := make([]int, 0, len(f.SourceMap))
+		for k := range f.SourceMap {
+			keys = append(keys, k)
+		}
+		sort.Ints(keys)
+		fmt.Fprintf(&sb, "fn p%d l%d v%v %x sm[", f.NumParams, f.NumLocals, f.Variadic, f.Instructions)
+		for _, k := range keys {
+			fmt.Fprintf(&sb, "%d:%d,", k, f.SourceMap[k])
+		}
+		sb.WriteString("]|")
+	}
+	fmt.Fprintf(&sb, "mods%d|", bc.NumModules)
+	fn(bc.Main)
+	for _, k := range bc.Constants {
+		if cf, ok := k.(*ugo.CompiledFunction); ok {
+			fn(cf)
+		} else {
+			sb.WriteString(canon.Value(k) + "|")
+		}
+	}
+	if bc.FileSet != nil {
+		fmt.Fprintf(&sb, "fs base%d ", bc.FileSet.Base)
+		for _, f := range bc.FileSet.Files {
+			fmt.Fprintf(&sb, "%s %d %d %v;", f.Name, f.Base, f.Size, f.Lines)
+		}
+	}
+	return sb.String()
+}
+
+// chunkReader delivers data in chunks of at most chunk bytes; with eofWithData the last chunk is returned together with
+// io.EOF, otherwise io.EOF comes with a later empty read. Both are allowed by the io.Reader contract.
+type chunkReader struct {
+	data        []byte
+	chunk       int
+	eofWithData bool
+}
+
+func (r *chunkReader) Read(p []byte) (int, error) {
+	if len(r.data) == 0 {
+		return 0, io.EOF
+	}
+	n := r.chunk
+	if n > len(p) {
+		n = len(p)
+	}
+	if n > len(r.data) {
+		n = len(r.data)
+	}
+	copy(p, r.data[:n])
+	r.data = r.data[n:]
+	if len(r.data) == 0 && r.eofWithData {
+		return n, io.EOF
+	}
+	return n, nil
 }
 
 func safeDecode(b []byte, mm *ugo.ModuleMap) (bc *ugo.Bytecode, err error, pan string) {
@@ -268,6 +334,37 @@ func (m c04) roundTrip(c *core.Ctx, p *Program, mm *ugo.ModuleMap, argVectors []
 		return false
 	}
 	c.Count("roundtrips")
+	// the same bytes through readers that deliver them in other ways the io.Reader contract allows: small chunks, and the
+	// last chunk together with io.EOF (as gzip / flate readers and iotest.DataErrReader do). What is decoded must not
+	// depend on how the bytes arrive: the decoded program re-encodes to the same bytes as the one read from a bytes.Reader.
+	for _, chunk := range []int{1, 3, 4, 7, 512, len(b1) - 4, len(b1) - 1, len(b1), len(b1) + 10} {
+		if chunk <= 0 {
+			continue
+		}
+		for _, eofWithData := range []bool{true, false} {
+			var bcr *ugo.Bytecode
+			var rerr error
+			var rpan string
+			func() {
+				defer func() {
+					if r := recover(); r != nil {
+						rpan = fmt.Sprint(r)
+					}
+				}()
+				bcr, rerr = encoder.DecodeBytecodeFrom(&chunkReader{data: b1, chunk: chunk, eofWithData: eofWithData}, mm)
+			}()
+			c.Count("reader_shapes")
+			stage := fmt.Sprintf("reader delivering %d-byte chunks, last chunk with io.EOF=%v (%d bytes)", chunk, eofWithData, len(b1))
+			if rpan != "" || rerr != nil {
+				c.Violation("C04|decode-depends-on-reader|fails", "decoding fails when the bytes arrive through a "+stage+": "+rpan+fmt.Sprint(rerr), c04wit{Program: p, Stage: stage})
+				return false
+			}
+			if c04structure(bcr) != c04structure(bc1) {
+				c.Violation("C04|decode-depends-on-reader|differs", "the program decoded through a "+stage+" is not the program decoded from a bytes.Reader", c04wit{Program: p, Stage: stage})
+				return false
+			}
+		}
+	}
 	if bytes.Equal(b1, b2) {
 		c.Count("reencoding_byte_identical")
 	}
